@@ -3,8 +3,13 @@
 Writes seeded/RESULTS.json and seeded/RESULTS.md.  usage: seedsweep.py [name ...]"""
 import sys, os, subprocess, shutil, tempfile, json, re, glob
 V = os.path.dirname(os.path.dirname(os.path.abspath(__file__)))
+outfile = None
+if '--out' in sys.argv:
+    i_ = sys.argv.index('--out')
+    outfile = sys.argv[i_ + 1]
+    del sys.argv[i_:i_ + 2]
 names = sys.argv[1:] or sorted(os.path.basename(os.path.dirname(p)) for p in glob.glob(os.path.join(V, 'seeded', '*', 'patch.diff')))
-resf = os.path.join(V, 'seeded', 'RESULTS.json')
+resf = outfile or os.path.join(V, 'seeded', 'RESULTS.json')
 res = json.load(open(resf)) if os.path.exists(resf) else {}
 for nm in names:
     d = os.path.join(V, 'seeded', nm)
@@ -38,6 +43,8 @@ for nm in names:
     finally:
         shutil.rmtree(tmp, ignore_errors=True)
     json.dump(res, open(resf, 'w'), indent=1, sort_keys=True)
+if outfile:
+    sys.exit(0)
 # restore evidence of the real tree
 subprocess.run([os.path.join(V, 'pv'), 'all'], cwd=V, stdout=subprocess.DEVNULL)
 with open(os.path.join(V, 'seeded', 'RESULTS.md'), 'w') as fh:
